@@ -499,6 +499,32 @@ def replay_random_never(a, b, n):
         symx.Ctx.cur = saved_ctx
 
 
+def deep_forms():
+    nest = '1'
+    for _ in range(100):
+        nest = '1 + (%s)' % nest
+    powers = ' ^ '.join(['1'] * 70)
+    left = ' - '.join(['1'] * 120)
+    return [
+        ('print {%s}' % nest, [101]),
+        ('print {%s}' % powers, [1]),
+        ('print {%s}' % left, [-118]),
+        ('define s with n begin if {n <= 0} return 0 return {n + [s {n - 1}]} end print [s 80]', [3240]),
+        ('define s with n begin if {n <= 0} return 0 return {[s {n - 1}] + n} end print [s 80]', [3240]),
+        ('assign a 1000 print {a != 1000} print {a == 1000} print {2.5 != 2.5} print {3 != 3.0} print {300 + 700 != a}', [False, True, False, False, False]),
+    ]
+
+
+def deep_worker(args):
+    """Depth: expressions nested 100 deep, 70 chained powers, recursion 80 deep with an operand pending, and operands
+    that are equal values but not the same Python object."""
+    res = report.WorkResult('deep and wide expressions')
+    world.start_function_trace()
+    common.fixed_scripts(res, 'deep-forms', deep_forms(), specs=())
+    res.functions = world.functions_seen()
+    return res
+
+
 def arith_worker(args):
     return common.script_worker(args)
 
@@ -509,12 +535,14 @@ def dispatch(args):
         return structure_worker(args)
     if k == 'random':
         return random_worker(args)
+    if k == 'deep':
+        return deep_worker(args)
     return arith_worker(args)
 
 
 def run(tier, seed):
     t0 = time.time()
-    items = [{'kind': 'random'}]
+    items = [{'kind': 'random'}, {'kind': 'deep'}]
     for c in arithmetic_cases():
         items.append({'kind': 'arith', 'case': c, 'timeout_ms': 10000, 'max_paths': 500, 'budget_s': 40})
     # structure: all operator vectors up to the bound, in every position
